@@ -21,7 +21,7 @@ ASSUME = [
     "operations respect the directory pacing condition of C01 (enforced by the generator, re-validated on the recorded history)",
 ]
 PROBE = "__probe"
-OUT_WEIGHTS = dict(fm.DEFAULT_WEIGHTS, out_mkfile=2, out_mkdir=1, out_rmtree=2, moveout=3)
+OUT_WEIGHTS = dict(fm.DEFAULT_WEIGHTS, out_mkfile=2, out_mkdir=1, out_rmtree=2, moveout=3, moveback=2)
 
 
 def probe_dirs(run, tree):
